@@ -305,10 +305,13 @@ class Run:
         bad = hygiene(files)
         n = len([t for t in res['theorems']])
         self.cov['obligations'] += n + 1       # +1: hygiene obligation (no Admitted/axioms/unchecked)
-        self.cov['checker_cmd'] = f'cd {COQ} && ' + (res['cmd'] or 'coqc -Q theories Tally theories/' + files[-1]) + '  (coqc 8.16.1, full .vo)'
-        tb = ['Coq 8.16.1 kernel + coqc; vm_compute for closed computations; no native_compute',
-              'Print Assumptions: ' + json.dumps(res['assumptions'])]
-        tb += list(extra_trusted)
+        cmd = f'cd {COQ} && ' + (res['cmd'] or 'coqc -Q theories Tally theories/' + files[-1]) + '  (coqc 8.16.1, full .vo)'
+        self.cov['checker_cmd'] = (self.cov['checker_cmd'] + ' ;; ' + cmd) if self.cov.get('checker_cmd') else cmd
+        tb = list(self.cov.get('trusted_base') or [])
+        if not tb:
+            tb.append('Coq 8.16.1 kernel + coqc; vm_compute for closed computations; no native_compute')
+        tb.append(f'Print Assumptions ({files[-1]}): ' + json.dumps(res['assumptions']))
+        tb += [t for t in extra_trusted if t not in tb]
         self.cov['trusted_base'] = tb
         if res['ok']:
             self.cov['discharged'] += n
